@@ -403,9 +403,19 @@ def filter_citations(citations: List[CitationBase]) -> List[CitationBase]:
     if not citations:
         return citations
 
-    citations = list(
-        {citation.span(): citation for citation in citations}.values()
-    )
+    # De-duplicate by span. If a reference citation has the same span as
+    # another kind of citation, keep the other citation.
+    unique_citations: dict = {}
+    for citation in citations:
+        existing = unique_citations.get(citation.span())
+        if (
+            existing is not None
+            and isinstance(citation, ReferenceCitation)
+            and not isinstance(existing, ReferenceCitation)
+        ):
+            continue
+        unique_citations[citation.span()] = citation
+    citations = list(unique_citations.values())
     sorted_citations = sorted(
         citations, key=lambda citation: citation.full_span()
     )
